@@ -224,6 +224,8 @@ func corpusProgram() *schemagen.Program {
 		{ID: 12, Name: "ru", Req: "required", ReqText: "required", Type: uT},
 		{ID: 13, Name: "li", Req: "default", Type: &schemagen.Type{Kind: "list", Elem: inT}},
 		{ID: 14, Name: "tl", Req: "required", ReqText: "required", Type: &schemagen.Type{Kind: "list", Elem: i32, Via: "a.L"}},
+		{ID: 15, Name: "si", Req: "default", Type: &schemagen.Type{Kind: "set", Elem: inT}},
+		{ID: 16, Name: "sm", Req: "default", Type: &schemagen.Type{Kind: "map", Key: str, Elem: inT}},
 	}}
 	f := &schemagen.File{Name: "a", Namespace: "c13corp.apkg"}
 	// a required field whose type is a typedef of a container (ZeroWriter, C13-6)
@@ -262,6 +264,8 @@ func corpusValue() *valgen.Value {
 		{ID: 12, V: valgen.Struct([]valgen.FieldVal{{ID: 1, V: valgen.Some(I(9))}, {ID: 2, V: valgen.Nil()}})},
 		{ID: 13, V: valgen.List([]*valgen.Value{inV(1, 2, "p"), inV(3, 4, "q"), inV(5, 6, "r")})},
 		{ID: 14, V: list(5, 6)},
+		{ID: 15, V: valgen.List([]*valgen.Value{inV(21, 22, "s0"), inV(23, 24, "s1")})},
+		{ID: 16, V: valgen.Map([][2]*valgen.Value{{valgen.Str([]byte("x")), inV(31, 32, "mx")}, {valgen.Str([]byte("y")), inV(33, 34, "my")}})},
 	})
 }
 
@@ -269,6 +273,7 @@ func P(segs ...maskkit.PSeg) maskkit.Path { return maskkit.Path(segs) }
 func nm(n string) maskkit.PSeg            { return maskkit.PSeg{Kind: "name", Name: n} }
 func ix(i ...int64) maskkit.PSeg          { return maskkit.PSeg{Kind: "idx", Ints: i} }
 func ki(i ...int64) maskkit.PSeg          { return maskkit.PSeg{Kind: "keyi", Ints: i} }
+func ks(s ...string) maskkit.PSeg         { return maskkit.PSeg{Kind: "keys", Strs: s} }
 
 var idxStar = maskkit.PSeg{Kind: "idxstar"}
 
@@ -288,6 +293,16 @@ func corpusMasks() []*maskSpec {
 		mk(false, "corpus-filtered-fields", P(nm("l"))), // zero_required: other fields must be absent
 		mk(false, "corpus-map-keys", P(nm("im"), ki(1), nm("y")), P(nm("im"), ki(5))),
 		mk(true, "corpus-map-keys", P(nm("im"), ki(1), nm("y")), P(nm("li"), ix(0, 7))),
+		// a set with a continuation, then a refinement of a strict subset of its members: the other
+		// members must not change (the library must not share one sub mask among the members)
+		mk(false, "corpus-group-extension", P(nm("li"), ix(0, 1), nm("x")), P(nm("li"), ix(1), nm("y"))),
+		mk(true, "corpus-group-extension", P(nm("li"), ix(0, 1), nm("x")), P(nm("li"), ix(1), nm("y"))),
+		mk(false, "corpus-group-extension", P(nm("si"), ix(0, 1), nm("x")), P(nm("si"), ix(0), nm("y"))),
+		mk(true, "corpus-group-extension", P(nm("si"), ix(0, 1), nm("y")), P(nm("si"), ix(0), nm("x"))),
+		mk(false, "corpus-group-extension", P(nm("im"), ki(1, 2), nm("x")), P(nm("im"), ki(2), nm("y"))),
+		mk(true, "corpus-group-extension", P(nm("im"), ki(1, 2), nm("x")), P(nm("im"), ki(2), nm("y"))),
+		mk(false, "corpus-group-extension", P(nm("sm"), ks("x", "y"), nm("x")), P(nm("sm"), ks("y"), nm("y"))),
+		mk(true, "corpus-group-extension", P(nm("sm"), ks("x", "y"), nm("x")), P(nm("sm"), ks("y"), nm("y"))),
 		{Nil: true, Style: "nil"},
 		mk(false, "empty"),
 	}
@@ -426,6 +441,19 @@ func main() {
 					g = ge
 				}
 				v := g.Struct(s, r.Range(1, 3))
+				if k == 1 {
+					// the second value of a struct should offer a site for a group extension (a
+					// list / set / map of structs with two members): retry a few times
+					probe := &pgen{r: r.Fork(), prog: p}
+					for tries := 0; tries < 12; tries++ {
+						var sites []geSite
+						probe.geSites(s, v, nil, 1, &sites)
+						if len(sites) > 0 {
+							break
+						}
+						v = gw.Struct(s, 3)
+					}
+				}
 				vec := &vector{S: s, V: v}
 				if w, err := valgen.ToWire(p, s, v); err == nil {
 					vec.W = w
@@ -437,6 +465,13 @@ func main() {
 					switch {
 					case m == 0 && k == 0 && si%3 == 0:
 						ms.Nil, ms.Style = true, "nil"
+					case m == 1 || r.Chance(1, 6):
+						// one slot per value is reserved for a group extension when the value has a site
+						if ps, ok := pg.groupExt(s, v); ok {
+							ms.Paths, ms.Style = ps, "group-extension"
+						} else {
+							ms.Paths, ms.Style = pg.domain(s, v), "domain"
+						}
 					case r.Chance(1, 4):
 						ms.Paths, ms.Style = pg.wild(s, v)
 						ms.Style = "wild-" + ms.Style
